@@ -261,7 +261,17 @@ func genScanCases(p *PRNG, n int) []*Case {
 			add("line-soup", lineSoup(p, 1+p.Intn(10)))
 		case 8:
 			m := GenModel(p.Fork(), 1+p.Intn(3))
-			txt, exp := RenderTreeLex(ModelTree(m), RandomLayout(p.Fork()))
+			l := RandomLayout(p.Fork())
+			if p.Chance(1, 2) {
+				// every line break of the file chosen independently among LF, CRLF and a lone CR
+				l.NL = "\n"
+				txt, exp := RenderTreeLex(ModelTree(m), l)
+				mixed, mexp := mixLineBreaks(p, txt, exp)
+				add("rendered-mixed-nl", []byte(mixed))
+				cases[len(cases)-1].Exp = mexp
+				break
+			}
+			txt, exp := RenderTreeLex(ModelTree(m), l)
 			add("rendered", []byte(txt))
 			cases[len(cases)-1].Exp = exp
 		default:
@@ -270,4 +280,31 @@ func genScanCases(p *PRNG, n int) []*Case {
 		}
 	}
 	return cases
+}
+
+// mixLineBreaks replaces every LF of a rendered document by LF, CRLF or CR (independently) and moves the
+// expected lexeme extents accordingly
+func mixLineBreaks(p *PRNG, txt string, exp []ExpLex) (string, []ExpLex) {
+	pos := make([]int, len(txt)+1)
+	var b strings.Builder
+	for i := 0; i < len(txt); i++ {
+		pos[i] = b.Len()
+		if txt[i] == '\n' {
+			b.WriteString(Pick(p, []string{"\n", "\r\n", "\r"}))
+		} else {
+			b.WriteByte(txt[i])
+		}
+	}
+	pos[len(txt)] = b.Len()
+	out := make([]ExpLex, len(exp))
+	for i, e := range exp {
+		out[i] = e
+		if e.B >= 0 && e.B <= len(txt) {
+			out[i].B = pos[e.B]
+		}
+		if e.E >= 0 && e.E+1 <= len(txt) {
+			out[i].E = pos[e.E+1] - 1
+		}
+	}
+	return b.String(), out
 }
